@@ -344,7 +344,7 @@ pub fn run(o: &Opts) -> Report {
         rep.cases = 1;
         let ans = run_driver_par(&o.drv, &[request(&polys)], 1);
         eprintln!("model: {}", ans[0]);
-        if ans[0].strip_suffix(" mono=0").unwrap_or(&ans[0]) != out.wire() { rep.finding("model", &["C03", "C04", "C15", "C16"], "sweep-differs", format!("tri {}", t), format!("impl: {} | model: {}", out.wire(), ans[0])); }
+        if ans[0].strip_suffix(" mono=0").unwrap_or(&ans[0]).strip_suffix(" links=0").unwrap_or(ans[0].strip_suffix(" mono=0").unwrap_or(&ans[0])) != out.wire() { rep.finding("model", &["C03", "C04", "C15", "C16"], "sweep-differs", format!("tri {}", t), format!("impl: {} | model: {}", out.wire(), ans[0])); }
         return rep;
     }
     let side = 4u64;
@@ -511,6 +511,13 @@ pub fn run(o: &Opts) -> Report {
             // ghost flag of the model: some ordered lookup saw the stored order of the active edges disagree
             // with the comparator, so the list scan of the model no longer stands for the B-tree search
             let (ans, mono) = match ans.strip_suffix(" mono=0") { Some(a) => (a.to_string(), false), None => (ans.clone(), true) };
+            // second ghost monitor (Model/SweepMon.lean): at every pass start the partner links of the registered edges are
+            // sane; C15Monitor.never_panics_of_monitor: while it holds the model cannot end in any panic
+            let (ans, links) = match ans.strip_suffix(" links=0") { Some(a) => (a.to_string(), false), None => (ans, true) };
+            if !links {
+                rep.count("model:links-monitor-dropped");
+                rep.finding("model", &["C15"], "partner-links-inconsistent", format!("tri {}", txt), "the partner links of an edge registered with the vertex being handled are a self-loop or coincide: the no-panic theorem no longer applies to this run".to_string());
+            }
             let ans = &ans;
             if !mono {
                 let valid = parse_text(txt).and_then(|p| to_int(&p)).map_or(false, |ip| ip.iter().all(|q| q.len() >= 3) && is_valid_set(&ip));
@@ -528,6 +535,7 @@ pub fn run(o: &Opts) -> Report {
         for ((req, imp, txt), ans) in reqs.iter().zip(qans.iter()) {
             let _ = req;
             let ans = &ans.strip_suffix(" mono=0").unwrap_or(ans).to_string();
+            let ans = &ans.strip_suffix(" links=0").unwrap_or(ans).to_string();
             if imp == ans { agree += 1; continue; }
             // -0.0 vs 0.0 in payloads is not modelled by XQ
             if imp.replace("8000000000000000", "0000000000000000") == *ans { agree += 1; continue; }
